@@ -952,6 +952,19 @@ def raise_types(rep, idx):
                 if n.exc is None:
                     continue                                            # re-raise
                 e = n.exc.func if isinstance(n.exc, ast.Call) else n.exc
+                if isinstance(n.exc, ast.Name):
+                    # raise <local>: an exception object built earlier in the same function -- classify its constructor
+                    defs = [s for s in ast.walk(f.node) if isinstance(s, ast.Assign) and len(s.targets) == 1 and
+                            isinstance(s.targets[0], ast.Name) and s.targets[0].id == n.exc.id]
+                    ctors = {ast.unparse(s.value.func) for s in defs if isinstance(s.value, ast.Call)}
+                    handlers = [h for h in ast.walk(f.node) if isinstance(h, ast.ExceptHandler) and h.name == n.exc.id]
+                    if len(ctors) == 1 and len(ctors) == len({ast.unparse(s.value.func) if isinstance(s.value, ast.Call) else "?" for s in defs}):
+                        e = ast.parse(next(iter(ctors)), mode="eval").body
+                    elif handlers and not defs:
+                        continue                                        # re-raise of a caught exception
+                    else:
+                        rep.unk("C19.5", f.site, f"raise {n.exc.id}", "the type of the raised object is not evident from the function")
+                        continue
                 exc = ast.unparse(e)
                 key = (f.site, exc)
                 what = f"raise {exc}"
